@@ -251,3 +251,14 @@ Proof.
     match goal with |- context [remaining ?z] => destruct (remaining z) end; cbn in *;
     destruct C as [C _]; split; try reflexivity; rewrite C; f_equal; cbn; lia.
 Qed.
+
+(* debit mode: whatever is settled, no unit is granted and the answer says it was the final unit *)
+Theorem charge_rg_debit_final d supi rg st req used d' st' mu :
+  q_mode st = 2 -> charge_rg d supi rg st req used = (d', st', Some mu) ->
+  m_granted mu = Some 0 /\ m_fui mu = true.
+Proof.
+  intros Hm. unfold charge_rg. rewrite Hm. cbn [Z.eqb Pos.eqb].
+  destruct (rf_sur d _) as [a|]; [|discriminate].
+  match goal with |- context [abmf_ccr d ?c] => destruct (abmf_ccr d c) as [d1 [b|]] end; [|discriminate].
+  intros H. inversion H; subst. split; reflexivity.
+Qed.
